@@ -89,7 +89,7 @@ def gen_cat_data(rng, n_series=None, big=False):
     else:
         n = rng.choice([1, 2, 3, 5, 12] + ([150] if big else []))
         if kind == "str":
-            cats = [rng.choice(["c%d" % i, "a<b>&c", "  sp  ", "ü%d" % i, ""]) for i in range(n)]
+            cats = [rng.choice(["c%d" % i, "a<b>&c", "  sp  ", "ü%d" % i, "", "cr\rin%d" % i, "&amp;%d" % i, "&#10;%d" % i]) for i in range(n)]
         elif kind == "num":
             cats = [rng.choice([i, i * 1.5, -i]) for i in range(n)]
             rng.shuffle(cats)      # the 0 / 0.0 among them anywhere, not always first (the first label decides the category kind)
@@ -102,7 +102,7 @@ def gen_cat_data(rng, n_series=None, big=False):
     ns = n_series if n_series is not None else rng.choice([0, 1, 1, 2, 3, 6])
     series = []
     for j in range(ns):
-        name = rng.choice(["S%d" % j, "s&%d" % j, "Serie %d" % j])
+        name = rng.choice(["S%d" % j, "s&%d" % j, "Serie %d" % j, "North\rEast%d" % j, "R&amp;D%d" % j, "&#65;-list%d" % j, "&lt;5 %d" % j, "tab\there%d" % j])
         # the number of values need not equal the number of (leaf) categories
         vals = gen_values(rng, rng.choice([n, n, n, n, max(0, n - 1), n + 2, 0]))
         nf = rng.choice([None, None, "0.00"])
@@ -118,7 +118,7 @@ def gen_xy_data(rng, bubble=False):
     cd = (BubbleChartData if bubble else XyChartData)()
     series = []
     for j in range(rng.choice([1, 2, 3, 5])):
-        name = "X%d" % j
+        name = rng.choice(["X%d" % j, "X%d" % j, "x\\ry%d" % j, "Q&amp;A%d" % j, "&#65;%d" % j])
         se = cd.add_series(name)
         pts = []
         for _ in range(rng.choice([0, 1, 2, 3, 7])):
@@ -165,7 +165,14 @@ class Workbook:
         if "xl/sharedStrings.xml" in z.namelist():
             root = etree.fromstring(z.read("xl/sharedStrings.xml"))
             for si in root.findall("{%s}si" % SS):
-                shared.append("".join(t.text or "" for t in si.iter("{%s}t" % SS)))
+                # ST_Xstring: a character XML cannot carry is written _xHHHH_ (XlsxWriter does this for C0 controls and CR)
+                shared.append(re.sub(r"_x([0-9A-Fa-f]{4})_", lambda m: chr(int(m.group(1), 16)), "".join(t.text or "" for t in si.iter("{%s}t" % SS))))
+        # the workbook's own date system (workbookPr/@date1904); serial numbers in it count from 1904-01-01 when set
+        self.date1904 = False
+        if "xl/workbook.xml" in z.namelist():
+            wbx = etree.fromstring(z.read("xl/workbook.xml"))
+            pr = wbx.find("{%s}workbookPr" % SS)
+            self.date1904 = pr is not None and pr.get("date1904") in ("1", "true")
         sheet = etree.fromstring(z.read("xl/worksheets/sheet1.xml"))
         self.cells = {}
         for c in sheet.iter("{%s}c" % SS):
@@ -186,6 +193,12 @@ class Workbook:
         for cn in range(col_num(c1), col_num(c2) + 1):
             cols.append([self.cells.get(col_letters(cn) + str(r)) for r in range(r1, r2 + 1)])
         return cols
+
+
+def chart_is_1904(root):
+    """the chart's date system: c:date1904 present with val true - or WITHOUT val (the schema default of CT_Boolean is true)"""
+    d = root.find("c:date1904", NS)
+    return d is not None and d.get("val", "true") in ("1", "true")
 
 
 def col_num(s):
